@@ -483,6 +483,9 @@ pub fn remove_stream<F: Fl, const UNSUB: bool, const LAST: bool, const OUTER: us
 //           afterwards only s2 may limit the sender.
 //   KIND 2: streams s0 (rx0), s1 (rx1).  actor 1 drops rx0, actor 2 does rx1.add_stream() -> rx2 (s2);
 //           afterwards s1 and s2 limit the sender and both get every value.
+//   KIND 3: one stream with two handles rx0, rx2.  actor 1 does rx0.add_stream() -> rx1 (s1),
+//           actor 2 does rx2.add_stream() -> rx3 (s2): two additions racing; afterwards all three
+//           streams limit the sender and get every value.
 //   actor 0: tx0 sends 1
 
 pub struct Rem2<F, const KIND: u8>(PhantomData<F>);
@@ -495,6 +498,8 @@ impl<F: Fl, const KIND: u8> Prog for Rem2<F, KIND> {
     fn step(a: usize, _k: usize) {
         match (KIND, a) {
             (_, 0) => op_send::<F>(0, 0, 1),
+            (3, 1) => op_add_stream::<F>(4, 0, 1, 1),
+            (3, _) => op_add_stream::<F>(8, 2, 3, 2),
             (_, 1) => op_drop_rx::<F>(4, 0),
             (1, _) => op_drop_rx::<F>(8, 1),
             (_, _) => op_add_stream::<F>(8, 1, 2, 2),
@@ -508,8 +513,12 @@ pub fn remove_race<F: Fl, const KIND: u8, const OUTER: usize>(c: &LifeCfg) {
     sched::configure(c.depth, c.budget, c.kinds, c.per_site);
     let mut w = World::<F>::new(c.cap);
     set_world::<F>(&mut w);
-    w.rx[1] = Some(F::add_stream(w.rx[0].as_ref().unwrap()));
-    w.rx_stream[1] = 1;
+    if KIND == 3 {
+        w.rx[2] = Some(F::clone_rx(w.rx[0].as_ref().unwrap()));
+    } else {
+        w.rx[1] = Some(F::add_stream(w.rx[0].as_ref().unwrap()));
+        w.rx_stream[1] = 1;
+    }
     if KIND == 1 {
         w.rx[2] = Some(F::add_stream(w.rx[0].as_ref().unwrap()));
         w.rx_stream[2] = 2;
@@ -530,7 +539,7 @@ pub fn remove_race<F: Fl, const KIND: u8, const OUTER: usize>(c: &LifeCfg) {
         i += 1;
     }
     let pr0: u8 = kani::any();
-    kani::assume(pr0 <= ps && pr0 <= c.pre_recv);
+    kani::assume(pr0 <= ps && pr0 <= c.pre_recv && (KIND != 3 || pr0 == 0));
     let mut i = 0;
     while i < c.pre_recv {
         let s0 = PRE_RECV_SLOT0 + i as usize;
@@ -542,7 +551,16 @@ pub fn remove_race<F: Fl, const KIND: u8, const OUTER: usize>(c: &LifeCfg) {
     }
     run_concurrent::<Rem2<F, KIND>, OUTER>();
     kani::cover!(sched::st().injected > 0, "an operation ran at a preemption point");
-    if KIND == 1 {
+    if KIND == 3 {
+        finish::<F>(&Finish {
+            n: c.n,
+            nstreams: 3,
+            full: 0b111,
+            drain_rx: [0, 1, 3],
+            probe_tx: 0,
+            probe_id0: 9,
+        });
+    } else if KIND == 1 {
         finish::<F>(&Finish {
             n: c.n,
             nstreams: 3,
@@ -761,6 +779,7 @@ life!(c11_bc_unsub_nonlast_o1, hk_c11_bc_unsub_nonlast_o1, Runner<Rem<BcB, true>
 life!(c11_bc_droprace_o1, hk_c11_bc_droprace_o1, Runner<Rem2<BcB, 1>, 1>, remove_race::<BcB, 1, 1>(&LifeCfg { pre_recv: 1, ..LQ }));
 life!(c11_bc_addrace_o1, hk_c11_bc_addrace_o1, Runner<Rem2<BcB, 2>, 1>, remove_race::<BcB, 2, 1>(&LifeCfg { pre_recv: 1, ..LQ }));
 life!(c11_bc_addrace_o2, hk_c11_bc_addrace_o2, Runner<Rem2<BcB, 2>, 2>, remove_race::<BcB, 2, 2>(&LifeCfg { pre_recv: 1, ..LQ }));
+life!(c10_bc_addadd_o1, hk_c10_bc_addadd_o1, Runner<Rem2<BcB, 3>, 1>, remove_race::<BcB, 3, 1>(&LifeCfg { pre_recv: 1, ..LQ }));
 // C12
 life!(c12_mp_senders_o0, hk_c12_mp_senders_o0, Runner<Churn<MpB, 1>, 0>, churn::<MpB, 1, 0>(&LifeCfg { pre_send: 1, pre_recv: 1, ..LQ }));
 life!(c12_bc_senders_o0, hk_c12_bc_senders_o0, Runner<Churn<BcB, 1>, 0>, churn::<BcB, 1, 0>(&LifeCfg { pre_send: 1, pre_recv: 1, ..LQ }));
